@@ -22,7 +22,7 @@ ASSUMPTIONS = [
 TRUSTED_EXTRA = ["harness/rv/bzlshim.py stands in for Bazel's Starlark interpreter"]
 
 LOCK_LABEL = "@ws//third_party/python:requirements.txt"
-WHEEL_DIRS = ["wheeldir", "deps/wheels", "../shared/wheeldir", "local-wheels"]
+WHEEL_DIRS = ["wheeldir", "deps/wheels", "../shared/wheeldir", "local-wheels", "local wheels", "third party/wheel dir"]
 
 
 def gen_bazel_og(rng):
